@@ -196,6 +196,37 @@ def run(chk):
             if is_dead(r):
                 chk.violation("an operator panics / aborts on an operand pair (%s build)" % prof, dict(case=c, impl=r, profile=prof))
     chk.stream("every binary and unary operator on every pair of the boundary pool", 2 * len(ocases), len(ocases), exhaustive=True)
+    # macros whose loop-variable argument is not an identifier but an arbitrary expression: it is evaluated on an interpreter
+    # of its own (no bindings), where member access, calls and indexing meet states the main interpreter never has
+    IDARGS = ["'a'.b", "[1].q", "true.q", "(1).q", "1.5.q", "1u.q", "b'x'.q", "null.q", "int.q", "x.y", "m1.k", "m1.nokey", "{'a': 1}.a",
+              "{'a': 1}.b", "{'a': 'v'}.a", "f(1)", "size('a')", "'a'.size()", "x.f()", "1 + 1", "'s'", "[1][0]", "[1][5]", "l1[0]", "-x",
+              "!true", "true ? v : w", "x ? v : w", "[1].map(v, v)", "has(x)", "coalesce(x, 1)", "timestamp(0).q", "now()", "f'{x}'",
+              "match 1 { case int: v }", "1 / 0", "(v)", "((v))", "v.w", "int", "type(1)", "dyn(v)", "[v][0]", "{'k': v}.k"]
+    mcases, mlabels = [], []
+    for recv in ["[1, 2]", "l1", "{'a': 1}", "m1", "1", "x"]:
+        for ida in IDARGS:
+            for src in ["%s.all(%s, true)", "%s.exists(%s, false)", "%s.exists_one(%s, true)", "%s.filter(%s, true)", "%s.map(%s, 1)",
+                        "%s.map(%s, true, 1)"]:
+                mlabels.append(src % (recv, ida))
+            mlabels.append("%s.reduce(%s, e, 0, 0)" % (recv, ida))
+            mlabels.append("%s.reduce(acc, %s, acc, 0)" % (recv, ida))
+    mcases = [evalsrc_case(s_, binds=STD_BINDS, ufuncs=[], std=False) for s_ in mlabels]
+    for prof in ("debug", "release"):
+        mimpl = run_impl(mcases, prof, isolate=True)
+        for lab, c, r in zip(mlabels, mcases, mimpl):
+            if is_dead(r):
+                chk.violation("a macro panics / aborts on a loop-variable argument that is not an identifier (%s build)" % prof,
+                              dict(case=c, label=lab, impl=r, profile=prof))
+    mmodel = run_model(mcases)
+    for lab, r, m in zip(mlabels, mimpl, mmodel):
+        # the model's private interpreter for the loop-variable argument always refuses run-time inputs the hard way (as the
+        # implementation's does while the compiler folds); at run time the implementation's yields error values there, which a
+        # match arm or || inside such an argument can absorb: the two always agree on success and its value, not always on
+        # which failure it is (DESIGN 10.6)
+        if not is_dead(r) and m != "UNMOD" and m != r and not (r.startswith("ERR ") and m.startswith("ERR ")):
+            chk.tie_broken("macros with expression loop variables", dict(label=lab, impl=r[:200], model=m[:200]))
+    chk.stream("every macro x 6 receivers x %d expressions in the place of the loop variable" % len(IDARGS), 2 * len(mcases), len(mcases),
+               exhaustive=True)
     # ---- nesting ladders -----------------------------------------------------------------------------------------
     lcases, llabels = [], []
     CHEAP = {"parens", "list", "neg", "not", "open", "close", "quotes", "ident", "string", "digits", "tern", "map", "call", "macro",
